@@ -19,10 +19,14 @@ def run(ctx):
                    'used for anything else', minimum=4)
     rre = ctx.rule('R-RESUME.executor', 'a coroutine resumed inline takes the resuming core\'s executor (every kind, every '
                    'path)', minimum=4)
+    rmv = ctx.rule('R-MOVEOUT.site', '(shared with C06) an awaiter moves the awaited Result out of a core that is not '
+                   'statically unique only behind GetRef() == 1: every later co_await / Get of the same SharedFuture '
+                   'still receives the value', minimum=0)
     rl = ctx.rule('R-LOOPCALLER', 'Here() of a callback object that is not a BaseCore returns nullptr on every path (the '
                   'Loop would call the returned core with that object as its caller)', minimum=15)
     for cfg, fb in sorted(fbs.items()):
         ctx.guard(lambda: lib_core.check_loop_caller(ctx, fb, rl))
+        ctx.guard(lambda: lib_core.check_move_sites(ctx, fb, rmv, lambda f: '/coro/' in f.file))
         seen = 0
         for f in sorted(fb.fn.values(), key=lambda f: f.full):
             if f.n == 'await_ready' and f.qn.startswith('yaclib::detail::') and f.cfg is not None:
